@@ -119,8 +119,14 @@ _escapes_re = re.compile(r''' ( \\
   | \\
   | "
   | [0-9]{1,3}
-  | x[0-9a-fA-F]{1,2}
+  | x[0-9a-fA-F]+
   ))+
+''', re.VERBOSE)
+
+# Like in C, a hexadecimal escape extends over all the hex digits that follow;
+# only the low 8 bits of the value are kept.
+_long_x_escape_re = re.compile(r'''
+    \\x [0-9a-fA-F]* ([0-9a-fA-F]{2})
 ''', re.VERBOSE)
 
 _short_x_escape_re = re.compile(r'''
@@ -130,6 +136,7 @@ _short_x_escape_re = re.compile(r'''
 def polib_unescape(s):
     def unescape(match):
         s = match.group()
+        s = _long_x_escape_re.sub(r'\\x\1', s)
         s = _short_x_escape_re.sub(r'\\x0\1', s)
         result = ast.literal_eval(f"b'{s}'")
         try:
